@@ -61,7 +61,8 @@ func resetCopyJail(root string) error {
 	t := model.Tree{
 		{Path: "dstroot", Type: "dir", Perm: 0755, Mtime: 1300000000000000009},
 		{Path: "outside", Type: "dir", Perm: 0755, Mtime: 1300000000000000001},
-		{Path: "outside/o", Type: "file", Perm: 0600, Mtime: 1300000000000000002, Data: []byte(secretA), Size: int64(len(secretA))},
+		{Path: "outside/o", Type: "file", Perm: 0600, Mtime: 1300000000000000002, Data: []byte(secretA), Size: int64(len(secretA)),
+			Xattrs: map[string]string{"trusted.outside": "TOP-SECRET-XATTR"}},
 		{Path: "outside/od", Type: "dir", Perm: 0700, Mtime: 1300000000000000003},
 		{Path: "outside/od/x", Type: "file", Perm: 0644, Mtime: 1300000000000000004, Data: []byte(secretB), Size: int64(len(secretB))},
 		{Path: "srcroot", Type: "dir", Perm: 0751, Uid: 7, Gid: 8, Mtime: 1300000000000000005, Xattrs: map[string]string{"user.root": "r"}},
@@ -266,9 +267,11 @@ func copyChild(args []string) {
 		}
 		wild := [][][]int{}
 		if cc.Wild {
+			pat := strings.TrimPrefix(cc.SrcArg, "/")
 			for _, e := range srcSnap {
-				if !strings.Contains(e.Path, "/") {
-					if m, _ := path.Match(strings.TrimPrefix(cc.SrcArg, "/"), e.Path); m {
+				// (the pattern's separators match literally: a match has as many components as the pattern)
+				if strings.Count(e.Path, "/") == strings.Count(pat, "/") {
+					if m, _ := path.Match(pat, e.Path); m {
 						wild = append(wild, vt.P(e.Path))
 					}
 				}
@@ -277,7 +280,16 @@ func copyChild(args []string) {
 		ev := vt.Ev{"ev": "Copy", "case": cc.Case, "kind": cc.Kind, "origin": cc.Origin, "src": srcSnap.Ev(), "srcTop": srcTop,
 			"before": before.Ev(), "after": after.Ev(), "ok": ok, "err": msg, "notes": notes1,
 			"second":      vt.Ev{"ok": ok2, "after": after2.Ev()},
-			"dstRootGone": rootGone, "afterTruncated": afterTrunc, "outsideBefore": ob, "outsideAfter": oa, "secrets": []string{model.ContentID([]byte(secretA)), model.ContentID([]byte(secretB))},
+			"dstRootGone": rootGone, "afterTruncated": afterTrunc, "secretXattrSeen": func() bool {
+				for _, e := range after {
+					for _, v := range e.Xattrs {
+						if v == "TOP-SECRET-XATTR" {
+							return true
+						}
+					}
+				}
+				return false
+			}(), "outsideBefore": ob, "outsideAfter": oa, "secrets": []string{model.ContentID([]byte(secretA)), model.ContentID([]byte(secretB))},
 			"req": vt.Ev{"sp": sp, "dp": splitArg(cc.DstArg), "slash": strings.HasSuffix(cc.DstArg, "/") && strings.Trim(cc.DstArg, "/") != "",
 				"contents": cc.Contents, "replace": cc.Replace, "uid": cc.Uid, "gid": cc.Gid, "mode": cc.Mode, "sym": cc.Sym, "utime": utimeStr, "wild": wild},
 			"filter": vt.Ev{"on": false}, "input": vt.Opaque(cc)}
@@ -415,6 +427,7 @@ func Copy(c *Ctx) error {
 				{"*", "/", false, true}, {"x", "new/", false, false}, {"x", "deep/er/x", false, false}, {"y", "x", false, false},
 				{"x", "y/", false, false}, {"x/y", "y", false, false},
 				{"*", "fresh", false, true}, {"*", "deep/fresh", false, true}, {"*", "fresh", true, true},
+				{"x/*", "/", false, true}, {"x/y*", "x", false, true},
 				{"..", "/", false, false}, {"x/..", "/", false, false}, {"x/..", "y", false, false}, {"x/../..", "/", true, false}, {"../x", "../x", false, false}}
 			n := 0
 			for si, s := range srcs {
@@ -490,6 +503,8 @@ func Copy(c *Ctx) error {
 						add(model.Tree{dirE("d"), mk("d/f"), at(l, "d/l"), at(l, "loop")}, nil, "/", "/", true, false, "srcTree")
 						add(model.Tree{at(l, "l"), mk("f")}, nil, "l", "copied", false, false, "srcArgIsLink")
 						add(model.Tree{at(l, "l"), mk("f")}, nil, "l/x", "copied", false, false, "srcArgThroughLink")
+						add(model.Tree{at(l, "l"), mk("f")}, nil, "l/x", "copied", false, true, "srcArgThroughLink/wildcardsAllowed")
+						add(model.Tree{at(l, "l"), mk("f")}, nil, "l/o*", "copied", false, true, "srcArgThroughLink/wildcardBelowLink")
 						add(model.Tree{at(l, "l"), mk("f")}, nil, "*", "/", false, true, "srcWildcard")
 						// several matches into a destination that does not exist yet: the first match (the link) becomes the
 						// destination entry, the next match must not be written through it
@@ -596,6 +611,15 @@ func Copy(c *Ctx) error {
 						ci.Kind, ci.Src, ci.SrcArg, ci.DstArg, ci.Contents, ci.Origin, ci.Inc = "filter", full, "/", "/", true, "systematic", l
 						ce.Kind, ce.Src, ce.SrcArg, ce.DstArg, ce.Contents, ce.Origin, ce.Exc = "filter", full, "/", "/", true, "systematic", l
 						cases = append(cases, ci, ce)
+						// redundant entries: the same pattern again after the exception (the last matching pattern wins, so
+						// the repeat takes back what the exception carved out)
+						if y != "" && (c.Thorough() || c.Rand.Intn(2) == 0) {
+							l3 := []string{x, "!" + y, x}
+							ci3, ce3 := ci, ce
+							ci3.Inc, ce3.Exc = l3, l3
+							ci3.Origin, ce3.Origin = "systematic/repeated", "systematic/repeated"
+							cases = append(cases, ci3, ce3)
+						}
 					}
 				}
 			}
